@@ -25,6 +25,13 @@ def check(ctx, B, P, res, kt):
         if o.get("panic"):
             ctx.violation("Build:panic", {"build": what, "panic": o["panic"]}, rp)
             continue
+        if o.get("changed"):
+            # spec invariant HeldStable: a script returned by an earlier build changed in the caller's hands
+            first = B[o["changed"][0]]
+            ctx.violation("Build:retained-script-changed-by-later-build",
+                          {"later_build": what, "earlier_builds_changed": len(o["changed"]),
+                           "first": "keys=%s m=%d" % (first["keys"], first["m"])},
+                          {"ktypes": kt, "builds": [{"keys": first["keys"], "m": first["m"]}, {"keys": keys, "m": m}]})
         if not built:
             if o["ok"]:
                 ctx.violation("ProgramFromMultiPubKey:invalid-parameters-accepted", {"build": what, "script": o["script"]}, rp)
